@@ -769,6 +769,8 @@ static PyObject* base_syrk(PyObject *self, PyObject *args, PyObject *kwrds)
   int id = X_ID(A);
   if (id == INT) PY_ERR_TYPE("invalid matrix types");
   if (id != X_ID(C)) err_conflicting_ids;
+  if (id == COMPLEX && !(Matrix_Check(A) && Matrix_Check(C)))
+    PY_ERR_TYPE("syrk is not implemented for complex sparse matrices");
 
   if (uplo != 'L' && uplo != 'U') err_char("uplo", "'L', 'U'");
   if (id == DOUBLE && trans != 'N' && trans != 'T' &&
